@@ -184,7 +184,7 @@ def run_check(prop, tier, seed, replay=None):
     for msg in total.inconclusive[:10]:
         print("    inconclusive: %s" % msg.strip().replace("\n", " | ")[-400:])
     if fresh:
-        os.makedirs(os.path.join(VERIF, "replays"), exist_ok=True)
+        os.makedirs(os.path.join(OUT, "replays"), exist_ok=True)
         seen = set()
         n = 0
         for v in fresh:
@@ -194,7 +194,7 @@ def run_check(prop, tier, seed, replay=None):
             n += 1
             if n > 10:
                 break
-            path = os.path.join(VERIF, "replays", "%s-%d-%d.json" % (prop, seed, n))
+            path = os.path.join(OUT, "replays", "%s-%d-%d.json" % (prop, seed, n))
             if replay:
                 path = replay
             else:
@@ -213,9 +213,12 @@ def run_check(prop, tier, seed, replay=None):
     return 0
 
 
+OUT = os.environ.get("VERIF_OUT_DIR", VERIF)     # evidence/ and replays/ live here (redirected for runs against scratch trees)
+
+
 def write_evidence(prop, ev):
-    os.makedirs(os.path.join(VERIF, "evidence"), exist_ok=True)
-    path = os.path.join(VERIF, "evidence", prop + ".json")
+    os.makedirs(os.path.join(OUT, "evidence"), exist_ok=True)
+    path = os.path.join(OUT, "evidence", prop + ".json")
     try:
         import jsonschema
         schema = json.load(open(os.path.join(VERIF, "schemas", "EVIDENCE.schema.json")))
